@@ -1,5 +1,527 @@
-import SradModel.Model.EonSpec
+import SradModel.Proofs.EonC02
+set_option linter.unusedSimpArgs false
+set_option linter.unusedVariables false
 
 namespace Srad.Eon.P03
+open Srad.Eon Srad.Eon.P02
 
+/-! ### the state invariant linking `will`, `bdseq`, the loop pc, `cs` and the oneshot replies -/
+
+/-- the registered will carries the current bdSeq -/
+def SyncP (s : St) : Prop := s.will = some s.bdseq
+/-- the node has processed a connection loss (it is offline) and the new will is not registered yet -/
+def LagP (s : St) : Prop := ∃ w, s.will = some w ∧ s.bdseq = (w + 1) % 256 ∧ s.online = false
+def SL (s : St) : Prop := SyncP s ∨ LagP s
+def NoOff (s : St) : Prop := ∀ o, s.cs ≠ some (.offline o)
+
+/-- the loop waits for the reply to oneshot `o` -/
+def Await (s : St) (o : Nat) (P : Prop) : Prop :=
+  (s.cs = some (.offline o) ∧ reply? s o = none ∧ P) ∨
+  (s.cs = none ∧ reply? s o = some (some s.bdseq) ∧ LagP s) ∨
+  (s.cs = none ∧ reply? s o = some none ∧ P)
+
+def LoopInv (s : St) : Prop :=
+  match s.loop with
+  | .start => s.will = none ∧ s.bdseq = 0 ∧ s.online = false ∧ s.cs = none ∧ s.running = false
+  | .sel | .polling | .stopCheck | .stopPolling => SyncP s ∧ NoOff s
+  | .sendCs m => SyncP s ∧ NoOff s ∧ (∀ o, m = .offline o → reply? s o = none ∧ o < s.nextOneshot)
+  | .stopSendCs o => SyncP s ∧ NoOff s ∧ reply? s o = none ∧ o < s.nextOneshot
+  | .awaitWill o | .stopAwaitWill o => Await s o (SyncP s)
+  | .forceSendCs o => SL s ∧ s.cs ≠ some (.offline o) ∧ reply? s o = none ∧ o < s.nextOneshot
+  | .forceAwaitWill o => Await s o (SL s)
+  | .sendStopped | .done => SL s
+
+def NodeBusy : NodePc → Bool
+  | .waitSub _ | .subDone _ | .birthStart .. | .waitNb .. | .nbDone .. => true
+  | _ => false
+
+/-- the loop is in (or past) the shutdown phase -/
+def StopPc : LoopPc → Bool
+  | .stopCheck | .stopPolling | .stopSendCs _ | .stopAwaitWill _ | .forceSendCs _ | .forceAwaitWill _
+  | .sendStopped | .done => true
+  | _ => false
+
+def Inv (s : St) : Prop :=
+  LoopInv s ∧
+  (s.online = true → SyncP s) ∧
+  (NodeBusy s.node = true → s.online = true) ∧
+  (s.birthed = true → s.online = true) ∧
+  (∀ p ∈ s.oneshots, p.1 < s.nextOneshot) ∧
+  (∀ o, s.cs = some (.offline o) → o < s.nextOneshot) ∧
+  (StopPc s.loop = true → s.stopping = true) ∧
+  (s.stop = true → s.stopping = true) ∧
+  (∀ u ∈ s.ucalls, u.pc = .cancelStop → s.stopping = true)
+
+theorem Inv_devFrame {s s' : St} (hf : DevFrame s s') (hI : Inv s) : Inv s' := by
+  obtain ⟨_, _, _, rfl⟩ := hf
+  exact hI
+
+theorem Inv_stimFrame {s s' : St} (hf : StimFrame s s') (hI : Inv s) : Inv s' := by
+  obtain ⟨_, _, _, _, _, _, _, rfl⟩ := hf
+  exact hI
+
+
+/-! ### what a node step can do -/
+
+def NodeEff (s s' : St) (o : List Obs) : Prop :=
+  (s.node = .idle ∧ s.cs = some .online ∧
+     ((s.stopping = true ∧ s' = { s with cs := none } ∧ o = []) ∨
+      (s.stopping = false ∧ s.online = true ∧ s' = { s with cs := none, online := true } ∧ o = []) ∨
+      (s.stopping = false ∧ s.online = false ∧ ∃ nd cl, NodeBusy nd = true ∧
+        s' = { s with cs := none, online := true, node := nd, calls := cl } ∧
+        ∃ id dc, o = [.call id .sub none none none false dc]))) ∨
+  (s.node = .idle ∧ ∃ w, s.cs = some (.offline w) ∧ s.online = false ∧
+      s' = { s with cs := none, oneshots := s.oneshots ++ [(w, none)] } ∧ o = []) ∨
+  (s.node = .idle ∧ ∃ w dv, s.cs = some (.offline w) ∧ s.online = true ∧
+      s' = { s with cs := none, online := false, birthed := false, bdseq := (s.bdseq + 1) % 256, devs := dv, oneshots := s.oneshots ++ [(w, some ((s.bdseq + 1) % 256))] } ∧ o = []) ∨
+  (s.node = .idle ∧ s.cs = some .stopped ∧ s' = { s with cs := none, node := .done } ∧ o = []) ∨
+  (∃ nd rq mq lr bi dv, s' = { s with node := nd, rebirthQ := rq, msgQ := mq, lastRebirthReq := lr, birthed := bi, devs := dv } ∧
+      (∀ y ∈ o, Minor y = true) ∧ (NodeBusy nd = true → NodeBusy s.node = true ∨ s.birthed = true) ∧
+      (bi = true → s.birthed = true ∨ NodeBusy s.node = true)) ∨
+  (NodeBusy s.node = true ∧ ∃ nd cl ep, NodeBusy nd = true ∧
+      s' = { s with birthed := false, seq := 0, epoch := ep, calls := cl, node := nd } ∧
+      ∃ id dc, o = [.bNode, .call id .nbirth none (some 0) (some s.bdseq) false dc])
+
+theorem stepNode_eff {s : St} {dec} {r : St × List Obs} (h : r ∈ stepNode s dec) : NodeEff s r.1 r.2 := by
+  unfold stepNode at h
+  simp only [nodeBirthStart, handOver, callRes] at h
+  repeat' (split at h)
+  all_goals simp only [List.mem_append, List.mem_singleton, List.mem_cons, List.not_mem_nil, or_false, false_or] at h
+  all_goals subst h
+  all_goals first
+    | exact .inr (.inr (.inr (.inr (.inl ⟨_, _, _, _, _, _, rfl, by simp [Minor], by simp_all [NodeBusy], by simp_all [NodeBusy]⟩))))
+    | exact .inr (.inr (.inr (.inr (.inr ⟨by simp_all [NodeBusy], _, _, _, by simp [NodeBusy], rfl, _, _, rfl⟩))))
+    | exact .inr (.inr (.inr (.inl ⟨by assumption, by assumption, rfl, rfl⟩)))
+    | exact .inr (.inr (.inl ⟨by assumption, _, _, by assumption, by simp_all, rfl, rfl⟩))
+    | exact .inr (.inl ⟨by assumption, _, by assumption, by simp_all, rfl, rfl⟩)
+    | exact .inl ⟨by assumption, by assumption, .inl ⟨by simp_all, rfl, rfl⟩⟩
+    | exact .inl ⟨by assumption, by assumption, .inr (.inl ⟨by simp_all, by simp_all, rfl, rfl⟩)⟩
+    | exact .inl ⟨by assumption, by assumption, .inr (.inr ⟨by simp_all, by simp_all, _, _, by simp [NodeBusy], rfl, _, _, rfl⟩)⟩
+
+/-! ### the effect of a step on the trace, as far as the C03 scanners can see it -/
+
+/-- observations none of the three scanners reacts to -/
+def Quiet : Obs → Bool
+  | .will _ | .poll | .polled .offline => false
+  | .call _ k _ _ _ _ _ => k != .nbirth && k != .ndeath
+  | _ => true
+
+/-- `poll` returned an Offline and the new will is not registered yet -/
+def SoPc : LoopPc → Bool
+  | .awaitWill _ | .sendCs (.offline _) | .stopAwaitWill _ | .stopSendCs _ => true
+  | _ => false
+
+inductive Eff (s s' : St) (o : List Obs) : Prop
+  | quiet (ho : ∀ y ∈ o, Quiet y = true) (hw : s'.will = s.will)
+      (hso : SoPc s'.loop = true → SoPc s.loop = true) (hst : s'.stopping = s.stopping)
+  | will0 (h0 : s.will = none) (ho : o = [.will 0]) (hw : s'.will = some 0)
+      (hso : SoPc s'.loop = false) (hst : s'.stopping = s.stopping)
+  | willN (w : Nat) (h0 : s.will = some w) (ho : o = [.will ((w + 1) % 256)]) (hw : s'.will = some ((w + 1) % 256))
+      (hc : SoPc s.loop = true ∨ s.stopping = true)
+      (hso : SoPc s'.loop = false) (hst : s'.stopping = s.stopping)
+  | poll (ho : o = [.poll]) (hw : s'.will = s.will) (hso : SoPc s'.loop = false) (hst : s'.stopping = s.stopping)
+  | polledOff (ho : o = [.polled .offline]) (hw : s'.will = s.will) (hst : s'.stopping = s.stopping)
+  | nbirth (id : Nat) (bd : Nat) (dc : Dec) (ho : o = [.bNode, .call id .nbirth none (some 0) (some bd) false dc])
+      (h0 : s.will = some bd) (hw : s'.will = s.will) (hl : s'.loop = s.loop) (hst : s'.stopping = s.stopping)
+  | ndeath (id : Nat) (bd : Nat) (dc : Dec) (ho : o = [.call id .ndeath none none (some bd) true dc])
+      (hw : s'.will = s.will) (hl : s'.loop = s.loop) (hst : s'.stopping = true)
+      (hb : s.will = some bd ∨ ∃ w, s.will = some w ∧ bd = (w + 1) % 256 ∧ (SoPc s.loop = true ∨ s.stopping = true))
+
+theorem reply_none_of_lt {s : St} {o : Nat} (h : ∀ p ∈ s.oneshots, p.1 < o) : reply? s o = none := by
+  unfold reply?
+  rw [Option.map_eq_none_iff, List.find?_eq_none]
+  intro p hp
+  have := h p hp
+  simp; omega
+
+
+/-! ### the event-loop task -/
+
+macro "unf" : tactic => `(tactic| simp only [Inv, LoopInv, SyncP, LagP, SL, NoOff, Await, reply?, StopPc, NodeBusy, SoPc] at *)
+
+theorem stepLoop_inv1 {s : St} {r : St × List Obs} (hI : Inv s) (h : r ∈ stepLoop s) :
+    Inv r.1  := by
+  unfold stepLoop at h
+  simp only [loopHandle, newOneshot] at h
+  split at h
+  all_goals rename_i hl
+  all_goals simp only [Inv, LoopInv, hl] at hI
+  all_goals repeat' (split at h)
+  all_goals simp only [List.mem_append, List.mem_singleton, List.mem_cons, List.not_mem_nil, or_false, false_or] at h
+  all_goals first | subst h | (rcases h with h | h <;> subst h)
+  all_goals unf
+  all_goals grind
+
+theorem await_will {s : St} {o bd : Nat} {P : Prop} (hA : Await s o P) (hr : reply? s o = some (some bd)) :
+    ∃ w, s.will = some w ∧ bd = (w + 1) % 256 := by
+  unfold Await LagP at hA
+  grind
+
+theorem stepLoop_eff {s : St} {r : St × List Obs} (hI : Inv s) (h : r ∈ stepLoop s) :
+    Eff s r.1 r.2 := by
+  unfold stepLoop at h
+  simp only [loopHandle, newOneshot] at h
+  split at h
+  all_goals rename_i hl
+  all_goals simp only [Inv, LoopInv, hl] at hI
+  all_goals repeat' (split at h)
+  all_goals simp only [List.mem_append, List.mem_singleton, List.mem_cons, List.not_mem_nil, or_false, false_or] at h
+  all_goals first | subst h | (rcases h with h | h <;> subst h)
+  all_goals first
+    | (refine .quiet ?_ rfl ?_ rfl <;> simp_all [Quiet, Ev.name, SoPc] <;> done)
+    | exact .poll rfl rfl (by simp [SoPc]; done) rfl
+    | (refine .polledOff ?_ rfl rfl; simp [Ev.name]; done)
+    | (refine .will0 ?_ ?_ ?_ ?_ rfl <;> simp_all [SoPc, SyncP] <;> done)
+    | (rename_i hr
+       obtain ⟨w, hw, rfl⟩ := await_will hI.1 hr
+       refine .willN w hw rfl rfl ?_ ?_ rfl <;> simp_all [SoPc, StopPc] <;> done)
+    | (rename_i e _ hne _
+       cases e <;> first | (exact absurd rfl hne) | (refine .quiet ?_ rfl ?_ rfl <;> simp_all [Quiet, Ev.name, SoPc] <;> done))
+theorem stepLoopTimeout_inv {s : St} {r : St × List Obs} (hI : Inv s) (h : r ∈ stepLoopTimeout s) :
+    Inv r.1 ∧ Eff s r.1 r.2 := by
+  unfold stepLoopTimeout at h
+  simp only [newOneshot] at h
+  cases hl : s.loop <;> simp only [hl] at h
+  all_goals repeat' (split at h)
+  all_goals simp only [List.mem_append, List.mem_singleton, List.mem_cons, List.not_mem_nil, or_false, false_or] at h
+  all_goals subst h
+  all_goals refine ⟨?_, ?_⟩
+  all_goals first
+    | (refine .quiet ?_ rfl ?_ rfl <;> simp_all [Quiet, Ev.name, SoPc] <;> done)
+    | (simp only [Inv, LoopInv, hl] at hI; unf; grind)
+
+/-! ### the node task -/
+
+theorem Minor_quiet {y : Obs} (h : Minor y = true) : Quiet y = true := by
+  cases y <;> simp_all [Minor, Quiet]
+
+theorem stepNode_inv {s : St} {dec} {r : St × List Obs} (hI : Inv s) (h : r ∈ stepNode s dec) :
+    Inv r.1 ∧ Eff s r.1 r.2 := by
+  have hE := stepNode_eff h
+  generalize r.1 = s' at *
+  generalize r.2 = o at *
+  clear h
+  rcases hE with ⟨hn, hc, ⟨hs, rfl, rfl⟩ | ⟨hs, ho, rfl, rfl⟩ | ⟨hs, ho, nd, cl, hnd, rfl, id, dc, rfl⟩⟩ |
+    ⟨hn, w, hc, ho, rfl, rfl⟩ | ⟨hn, w, dv, hc, ho, rfl, rfl⟩ | ⟨hn, hc, rfl, rfl⟩ |
+    ⟨nd, rq, mq, lr, bi, dv, rfl, hm, hnd, hbi⟩ | ⟨hn, nd, cl, ep, hnd, rfl, id, dc, rfl⟩
+  all_goals refine ⟨?_, ?_⟩
+  all_goals first
+    | (refine .quiet ?_ rfl ?_ rfl <;> simp_all [Quiet, Ev.name, SoPc] <;> done)
+    | (cases hl : s.loop <;> simp only [Inv, LoopInv, hl] at hI <;> unf <;> grind)
+    | exact .quiet (fun y hy => Minor_quiet (hm y hy)) rfl (fun h => h) rfl
+    | exact .nbirth _ _ _ rfl (hI.2.1 (hI.2.2.1 hn)) rfl rfl rfl
+/-! ### device tasks, user calls, stimuli -/
+
+theorem bearsSeq_quiet {id k dv sq bd it dc} (h : CK.bearsSeq k = true) : Quiet (.call id k dv sq bd it dc) = true := by
+  cases k <;> simp_all [CK.bearsSeq, Quiet]
+
+theorem pubEff_quiet {s s' : St} {o} (hp : PubEff s s' o) : ∀ y ∈ o, Quiet y = true := by
+  rcases hp with ⟨_, ho⟩ | ⟨_, _, _, pre, post, id, k, dv, it, dc, rfl, hk, hpre, hpost⟩
+  · exact fun y hy => Minor_quiet (ho y hy)
+  · intro y hy
+    simp only [List.mem_append, List.mem_cons] at hy
+    rcases hy with hy | rfl | hy
+    · exact Minor_quiet (hpre y hy)
+    · exact bearsSeq_quiet hk
+    · exact Minor_quiet (hpost y hy)
+
+theorem stepDev_inv {s : St} {d dec} {r : St × List Obs} (hI : Inv s) (h : r ∈ stepDev s d dec) :
+    Inv r.1 ∧ Eff s r.1 r.2 := by
+  obtain ⟨hf, hp⟩ := stepDev_eff h
+  refine ⟨Inv_devFrame hf hI, ?_⟩
+  obtain ⟨_, _, _, hf⟩ := hf
+  exact .quiet (pubEff_quiet hp) (by rw [hf]) (by rw [hf]; exact fun h => h) (by rw [hf])
+
+theorem mem_setUCall {u v : UCall} : ∀ {l : List UCall}, v ∈ setUCall u l → v = u ∨ v ∈ l
+  | [], h => by simp [setUCall] at h
+  | w :: l, h => by
+    simp only [setUCall] at h
+    split at h
+    · simp only [List.mem_cons] at h
+      rcases h with h | h
+      · exact .inl h
+      · exact .inr (by simp [h])
+    · simp only [List.mem_cons] at h
+      rcases h with h | h
+      · exact .inr (by simp [h])
+      · rcases mem_setUCall h with h | h
+        · exact .inl h
+        · exact .inr (by simp [h])
+
+/-- while `run` is running, the registered will is current or about to be replaced -/
+theorem will_of_running {s : St} (hI : Inv s) (hr : s.running = true) :
+    s.will = some s.bdseq ∨
+      ∃ w, s.will = some w ∧ s.bdseq = (w + 1) % 256 ∧ (SoPc s.loop = true ∨ s.stopping = true) := by
+  cases hl : s.loop <;> simp only [Inv, LoopInv, hl] at hI <;> unf <;> grind
+
+
+/-- a step that only rewrites one user-call record (not into `cancelStop`) and fields the invariant ignores -/
+theorem Inv_userFrame {s s' : St} {u : UCall} {p : UPc} (hI : Inv s)
+    (hp : p = .cancelStop → s.stopping = true)
+    (hf : ∃ q c st, (st = true → s.stopping = true) ∧
+      s' = { s with seq := q, calls := c, stop := st, ucalls := setUCall { u with pc := p } s.ucalls }) : Inv s' := by
+  obtain ⟨q, c, st, hst, rfl⟩ := hf
+  obtain ⟨h1, h2, h3, h4, h5, h6, h7, h8, h9⟩ := hI
+  refine ⟨h1, h2, h3, h4, h5, h6, h7, hst, ?_⟩
+  intro v hv hvp
+  rcases mem_setUCall hv with rfl | hv
+  · exact hp hvp
+  · exact h9 v hv hvp
+
+theorem stepUser_inv {s : St} {j dec} {r : St × List Obs} (hI : Inv s) (h : r ∈ stepUser s j dec) :
+    Inv r.1 ∧ Eff s r.1 r.2 := by
+  obtain ⟨u, hu, p, hE⟩ := stepUser_eff h
+  generalize r.1 = s' at *
+  generalize r.2 = o at *
+  clear h
+  rcases hE with ⟨⟨q, c, hf⟩, hp, hne⟩ | ⟨hr, rfl, ⟨c, hf⟩, id, dc, rfl⟩ | ⟨hpc, rfl, rfl, hf | hf⟩ |
+    ⟨rfl, ⟨c, hf⟩, id, dc, j', rr, rfl⟩
+  · refine ⟨Inv_userFrame hI (fun h => absurd h hne) ⟨q, c, s.stop, hI.2.2.2.2.2.2.2.1, hf⟩, ?_⟩
+    exact .quiet (pubEff_quiet hp) (by rw [hf]) (by rw [hf]; exact fun h => h) (by rw [hf])
+  · refine ⟨?_, ?_⟩
+    · subst hf
+      obtain ⟨h1, h2, h3, h4, h5, h6, h7, h8, h9⟩ := hI
+      exact ⟨h1, h2, h3, h4, h5, h6, fun _ => rfl, fun _ => rfl, fun _ _ _ => rfl⟩
+    · exact .ndeath id s.bdseq dc rfl (by rw [hf]) (by rw [hf]) (by rw [hf]) (will_of_running hI hr)
+  · have hs : s.stopping = true := hI.2.2.2.2.2.2.2.2 u hu hpc
+    refine ⟨Inv_userFrame hI (by simp) ⟨s.seq, s.calls, s.stop, fun _ => hs, hf⟩, ?_⟩
+    exact .quiet (by simp) (by rw [hf]) (by rw [hf]; exact fun h => h) (by rw [hf])
+  · have hs : s.stopping = true := hI.2.2.2.2.2.2.2.2 u hu hpc
+    refine ⟨Inv_userFrame hI (by simp) ⟨s.seq, s.calls, true, fun _ => hs, hf⟩, ?_⟩
+    exact .quiet (by simp) (by rw [hf]) (by rw [hf]; exact fun h => h) (by rw [hf])
+  · refine ⟨Inv_userFrame hI (by simp) ⟨s.seq, c, s.stop, hI.2.2.2.2.2.2.2.1, hf⟩, ?_⟩
+    exact .quiet (by simp [Quiet]) (by rw [hf]) (by rw [hf]; exact fun h => h) (by rw [hf])
+
+theorem applyStim_inv {s : St} {x : Stim} (hI : Inv s) :
+    Inv (applyStim s x).1 ∧ Eff s (applyStim s x).1 (applyStim s x).2 := by
+  obtain ⟨hf, ho⟩ := applyStim_eff s x
+  generalize (applyStim s x).1 = s' at *
+  generalize (applyStim s x).2 = o at *
+  have hq := fun y hy => Minor_quiet (ho y hy)
+  rcases hf with hf | ⟨u, hu, rfl⟩
+  · refine ⟨Inv_stimFrame hf hI, ?_⟩
+    obtain ⟨_, _, _, _, _, _, _, rfl⟩ := hf
+    exact .quiet hq rfl (fun h => h) rfl
+  · refine ⟨?_, .quiet hq rfl (fun h => h) rfl⟩
+    obtain ⟨h1, h2, h3, h4, h5, h6, h7, h8, h9⟩ := hI
+    refine ⟨h1, h2, h3, h4, h5, h6, h7, h8, ?_⟩
+    intro v hv hvp
+    simp only [List.mem_append, List.mem_singleton] at hv
+    rcases hv with hv | rfl
+    · exact h9 v hv hvp
+    · rw [hu] at hvp; cases hvp
+
+theorem step_inv {s : St} {a} {r : St × List Obs} (hI : Inv s) (h : runAct s a = some r) :
+    Inv r.1 ∧ Eff s r.1 r.2 := by
+  cases a with
+  | stim x =>
+    simp only [runAct, Option.some.injEq] at h
+    subst h
+    exact applyStim_inv hI
+  | task t dec k =>
+    have hm := mem_of_runAct_task h
+    cases t with
+    | loop => exact ⟨stepLoop_inv1 hI hm, stepLoop_eff hI hm⟩
+    | loopTimeout => exact stepLoopTimeout_inv hI hm
+    | node => exact stepNode_inv hI hm
+    | dev d => exact stepDev_inv hI hm
+    | user j => exact stepUser_inv hI hm
+
+theorem inv_init (cd : Nat) : Inv (init cd) := by
+  simp [Inv, LoopInv, init, NodeBusy, StopPc]
+/-! ### the scanners -/
+
+theorem nb_skip1 {w y t} (h : Quiet y = true) : nbirthBdOk w (y :: t) = nbirthBdOk w t := by
+  cases y with
+  | call id k dv sq bd it dc => cases k <;> simp_all [Quiet, nbirthBdOk]
+  | _ => simp_all [Quiet, nbirthBdOk]
+
+theorem wc_skip1 {w so c y t} (h : Quiet y = true) : willChainOk w so c (y :: t) = willChainOk w so c t := by
+  cases y with
+  | call id k dv sq bd it dc => cases k <;> cases w <;> simp_all [Quiet, willChainOk]
+  | polled e => cases e <;> cases w <;> simp_all [Quiet, willChainOk]
+  | _ => cases w <;> simp_all [Quiet, willChainOk]
+
+theorem nd_skip1 {w so c y t} (h : Quiet y = true) : ndeathBdOk w so c (y :: t) = ndeathBdOk w so c t := by
+  cases y with
+  | call id k dv sq bd it dc => cases k <;> cases w <;> simp_all [Quiet, ndeathBdOk]
+  | polled e => cases e <;> cases w <;> simp_all [Quiet, ndeathBdOk]
+  | _ => cases w <;> simp_all [Quiet, ndeathBdOk]
+
+theorem nb_skip {w t} : ∀ {o : List Obs}, (∀ y ∈ o, Quiet y = true) → nbirthBdOk w (o ++ t) = nbirthBdOk w t
+  | [], _ => rfl
+  | y :: o, h => by
+    rw [List.cons_append, nb_skip1 (h y (by simp))]
+    exact nb_skip (fun z hz => h z (by simp [hz]))
+
+theorem wc_skip {w so c t} : ∀ {o : List Obs}, (∀ y ∈ o, Quiet y = true) →
+    willChainOk w so c (o ++ t) = willChainOk w so c t
+  | [], _ => rfl
+  | y :: o, h => by
+    rw [List.cons_append, wc_skip1 (h y (by simp))]
+    exact wc_skip (fun z hz => h z (by simp [hz]))
+
+theorem nd_skip {w so c t} : ∀ {o : List Obs}, (∀ y ∈ o, Quiet y = true) →
+    ndeathBdOk w so c (o ++ t) = ndeathBdOk w so c t
+  | [], _ => rfl
+  | y :: o, h => by
+    rw [List.cons_append, nd_skip1 (h y (by simp))]
+    exact nd_skip (fun z hz => h z (by simp [hz]))
+
+theorem eff_nb {s s' : St} {o} (hE : Eff s s' o) (t : List Obs) (ht : nbirthBdOk s'.will t = true) :
+    nbirthBdOk s.will (o ++ t) = true := by
+  cases hE with
+  | quiet ho hw hso hst => rw [nb_skip ho, ← hw]; exact ht
+  | will0 h0 ho hw hso hst => subst ho; rw [hw] at ht; simpa [nbirthBdOk] using ht
+  | willN w h0 ho hw hc hso hst => subst ho; rw [hw] at ht; simpa [nbirthBdOk] using ht
+  | poll ho hw hso hst => subst ho; rw [hw] at ht; simpa [nbirthBdOk] using ht
+  | polledOff ho hw hst => subst ho; rw [hw] at ht; simpa [nbirthBdOk] using ht
+  | nbirth id bd dc ho h0 hw hl hst => subst ho; rw [hw, h0] at ht; simp [nbirthBdOk, h0, ht]
+  | ndeath id bd dc ho hw hl hst hb => subst ho; rw [hw] at ht; simpa [nbirthBdOk] using ht
+
+theorem eff_wc {s s' : St} {o} {so c : Bool} (hE : Eff s s' o)
+    (h1 : SoPc s.loop = true → so = true) (h2 : s.stopping = true → c = true) :
+    ∃ so' c', (SoPc s'.loop = true → so' = true) ∧ (s'.stopping = true → c' = true) ∧
+      ∀ t, willChainOk s'.will so' c' t = true → willChainOk s.will so c (o ++ t) = true := by
+  cases hE with
+  | quiet ho hw hso hst =>
+    exact ⟨so, c, fun h => h1 (hso h), fun h => h2 (hst ▸ h), fun t ht => by rw [wc_skip ho, ← hw]; exact ht⟩
+  | will0 h0 ho hw hso hst =>
+    subst ho
+    exact ⟨false, c, by simp [hso], fun h => h2 (hst ▸ h), fun t ht => by
+      rw [hw] at ht; simp [willChainOk, h0, ht]⟩
+  | willN w h0 ho hw hc hso hst =>
+    subst ho
+    have : (so || c) = true := by rcases hc with h | h <;> simp [h1, h2, h]
+    exact ⟨false, c, by simp [hso], fun h => h2 (hst ▸ h), fun t ht => by
+      rw [hw] at ht; simp [willChainOk, h0, ht, this]⟩
+  | poll ho hw hso hst =>
+    subst ho
+    exact ⟨false, c, by simp [hso], fun h => h2 (hst ▸ h), fun t ht => by
+      rw [hw] at ht; cases hs : s.will <;> simpa [willChainOk, hs] using ht⟩
+  | polledOff ho hw hst =>
+    subst ho
+    exact ⟨true, c, by simp, fun h => h2 (hst ▸ h), fun t ht => by
+      rw [hw] at ht; cases hs : s.will <;> simpa [willChainOk, hs] using ht⟩
+  | nbirth id bd dc ho h0 hw hl hst =>
+    subst ho
+    exact ⟨so, c, fun h => h1 (hl ▸ h), fun h => h2 (hst ▸ h), fun t ht => by
+      rw [hw] at ht; simpa [willChainOk, h0] using ht⟩
+  | ndeath id bd dc ho hw hl hst hb =>
+    subst ho
+    exact ⟨so, true, fun h => h1 (hl ▸ h), fun _ => rfl, fun t ht => by
+      rw [hw] at ht; cases hs : s.will <;> simpa [willChainOk, hs] using ht⟩
+
+
+theorem eff_nd {s s' : St} {o} {so c : Bool} (hE : Eff s s' o)
+    (h1 : SoPc s.loop = true → so = true) (h2 : s.stopping = true → c = true) :
+    ∃ so' c', (SoPc s'.loop = true → so' = true) ∧ (s'.stopping = true → c' = true) ∧
+      ∀ t, ndeathBdOk s'.will so' c' t = true → ndeathBdOk s.will so c (o ++ t) = true := by
+  cases hE with
+  | quiet ho hw hso hst =>
+    exact ⟨so, c, fun h => h1 (hso h), fun h => h2 (hst ▸ h), fun t ht => by rw [nd_skip ho, ← hw]; exact ht⟩
+  | will0 h0 ho hw hso hst =>
+    subst ho
+    exact ⟨false, c, by simp [hso], fun h => h2 (hst ▸ h), fun t ht => by
+      rw [hw] at ht; simp [ndeathBdOk, h0, ht]⟩
+  | willN w h0 ho hw hc hso hst =>
+    subst ho
+    exact ⟨false, c, by simp [hso], fun h => h2 (hst ▸ h), fun t ht => by
+      rw [hw] at ht; simp [ndeathBdOk, h0, ht]⟩
+  | poll ho hw hso hst =>
+    subst ho
+    exact ⟨so, c, by simp [hso], fun h => h2 (hst ▸ h), fun t ht => by
+      rw [hw] at ht; cases hs : s.will <;> simpa [ndeathBdOk, hs] using ht⟩
+  | polledOff ho hw hst =>
+    subst ho
+    exact ⟨true, c, by simp, fun h => h2 (hst ▸ h), fun t ht => by
+      rw [hw] at ht; cases hs : s.will <;> simpa [ndeathBdOk, hs] using ht⟩
+  | nbirth id bd dc ho h0 hw hl hst =>
+    subst ho
+    exact ⟨so, c, fun h => h1 (hl ▸ h), fun h => h2 (hst ▸ h), fun t ht => by
+      rw [hw] at ht; simpa [ndeathBdOk, h0] using ht⟩
+  | ndeath id bd dc ho hw hl hst hb =>
+    subst ho
+    refine ⟨so, true, fun h => h1 (hl ▸ h), fun _ => rfl, fun t ht => ?_⟩
+    rw [hw] at ht
+    rcases hb with hb | ⟨w, hb, rfl, hc⟩
+    · rw [hb] at ht ⊢; simp [ndeathBdOk, ht]
+    · have : (so || c) = true := by rcases hc with h | h <;> simp [h1, h2, h]
+      rw [hb] at ht ⊢; simp [ndeathBdOk, ht, this]
+
+/-! ### lifting over executions -/
+
+theorem runActs_all : ∀ (acts : List Act) (s : St) (so1 c1 so2 c2 : Bool) (s' : St) (tr : List Obs),
+    Inv s → (SoPc s.loop = true → so1 = true) → (s.stopping = true → c1 = true) →
+    (SoPc s.loop = true → so2 = true) → (s.stopping = true → c2 = true) →
+    runActs s acts = some (s', tr) →
+    Inv s' ∧ nbirthBdOk s.will tr = true ∧ willChainOk s.will so1 c1 tr = true ∧
+      ndeathBdOk s.will so2 c2 tr = true
+  | [], s, so1, c1, so2, c2, s', tr, hI, _, _, _, _, h => by
+    simp only [runActs, Option.some.injEq, Prod.mk.injEq] at h
+    obtain ⟨rfl, rfl⟩ := h
+    exact ⟨hI, by simp [nbirthBdOk], by simp [willChainOk], by simp [ndeathBdOk]⟩
+  | a :: as, s, so1, c1, so2, c2, s', tr, hI, ha1, hb1, ha2, hb2, h => by
+    simp only [runActs] at h
+    split at h
+    · cases h
+    rename_i s1 o1 h1
+    split at h
+    · cases h
+    rename_i s2 o2 h2
+    simp only [Option.some.injEq, Prod.mk.injEq] at h
+    obtain ⟨rfl, rfl⟩ := h
+    obtain ⟨hI1, hE⟩ := step_inv hI h1
+    obtain ⟨so1', c1', ha1', hb1', hw⟩ := eff_wc hE ha1 hb1
+    obtain ⟨so2', c2', ha2', hb2', hn⟩ := eff_nd hE ha2 hb2
+    obtain ⟨hI2, r1, r2, r3⟩ := runActs_all as s1 so1' c1' so2' c2' _ _ hI1 ha1' hb1' ha2' hb2' h2
+    exact ⟨hI2, eff_nb hE _ r1, hw _ r2, hn _ r3⟩
+
+theorem runActs_init {cd : Nat} {acts : List Act} {s : St} {tr : List Obs}
+    (h : runActs (init cd) acts = some (s, tr)) :
+    Inv s ∧ nbirthBdOk none tr = true ∧ willChainOk none false false tr = true ∧
+      ndeathBdOk none false false tr = true :=
+  runActs_all acts (init cd) false false false false s tr (inv_init cd)
+    (by simp [init, SoPc]) (by simp [init]) (by simp [init, SoPc]) (by simp [init]) h
+
+theorem will_current {s : St} (hI : Inv s) (hp : s.loop = .sel ∨ s.loop = .polling) :
+    s.will = some s.bdseq := by
+  rcases hp with hl | hl <;> simp only [Inv, LoopInv, hl] at hI <;> exact hI.1.1
+
+/-! ### bdSeq changes only when the node processes the loss of an established connection -/
+
+theorem bdseq_step {s : St} {a : Act} {r : St × List Obs} (h : runAct s a = some r)
+    (hne : r.1.bdseq ≠ s.bdseq) :
+    (∃ dec k, a = .task .node dec k) ∧ s.node = .idle ∧ (∃ w, s.cs = some (.offline w)) ∧
+      s.online = true ∧ r.1.online = false ∧ r.1.bdseq = (s.bdseq + 1) % 256 := by
+  cases a with
+  | stim x =>
+    simp only [runAct, Option.some.injEq] at h
+    obtain ⟨hf, _⟩ := applyStim_eff s x
+    rw [h] at hf
+    rcases hf with ⟨_, _, _, _, _, _, _, hf⟩ | ⟨u, _, hf⟩ <;> exact absurd (by rw [hf]) hne
+  | task t dec k =>
+    have hm := mem_of_runAct_task h
+    cases t with
+    | loop =>
+      obtain ⟨⟨_, _, _, _, _, _, _, _, _, _, hf⟩, _⟩ := stepLoop_frame hm
+      exact absurd (by rw [hf]) hne
+    | loopTimeout =>
+      obtain ⟨⟨_, _, _, _, _, _, _, _, _, _, hf⟩, _⟩ := stepLoopTimeout_frame hm
+      exact absurd (by rw [hf]) hne
+    | dev d =>
+      obtain ⟨⟨_, _, _, hf⟩, _⟩ := stepDev_eff hm
+      exact absurd (by rw [hf]) hne
+    | user j =>
+      obtain ⟨u, _, p, hu⟩ := stepUser_eff hm
+      rcases hu with ⟨⟨_, _, hf⟩, _, _⟩ | ⟨_, _, ⟨_, hf⟩, _⟩ | ⟨_, _, _, hf | hf⟩ | ⟨_, ⟨_, hf⟩, _⟩ <;>
+        exact absurd (by rw [hf]) hne
+    | node =>
+      have hE := stepNode_eff hm
+      rcases hE with ⟨hn, hc, ⟨hs, hf, _⟩ | ⟨hs, ho, hf, _⟩ | ⟨hs, ho, nd, cl, hnd, hf, _⟩⟩ |
+        ⟨hn, w, hc, ho, hf, _⟩ | ⟨hn, w, dv, hc, ho, hf, _⟩ | ⟨hn, hc, hf, _⟩ |
+        ⟨nd, rq, mq, lr, bi, dv, hf, _⟩ | ⟨hn, nd, cl, ep, hnd, hf, _⟩
+      case inr.inr.inl =>
+        exact ⟨⟨dec, k, rfl⟩, hn, ⟨w, hc⟩, ho, by rw [hf], by rw [hf]⟩
+      all_goals exact absurd (by rw [hf]) hne
 end Srad.Eon.P03
